@@ -298,6 +298,43 @@ class TStrKey(str):
         note("__str__")
         return str.__str__(self)
 
+    # ordering, length, iteration, formatting: whatever "tidying up" of keys (sorting, normalising, measuring) would call
+    def __lt__(self, other):
+        note("__lt__")
+        return str.__lt__(self, other)
+
+    def __gt__(self, other):
+        note("__gt__")
+        return str.__gt__(self, other)
+
+    def __le__(self, other):
+        note("__le__")
+        return str.__le__(self, other)
+
+    def __ge__(self, other):
+        note("__ge__")
+        return str.__ge__(self, other)
+
+    def __ne__(self, other):
+        note("__ne__")
+        return str.__ne__(self, other)
+
+    def __len__(self):
+        note("__len__")
+        return str.__len__(self)
+
+    def __iter__(self):
+        note("__iter__")
+        return str.__iter__(self)
+
+    def __format__(self, spec):
+        note("__format__")
+        return str.__format__(self, spec)
+
+    def __repr__(self):
+        note("__repr__")
+        return str.__repr__(self)
+
     def __repr__(self):
         note("__repr__")
         return str.__repr__(self)
